@@ -258,4 +258,36 @@ theorem run_all (evs : List Ev) (s : Sys) (a : Abs) (hI : Inv s) (hR : Rel s a) 
     obtain ⟨h1, h2⟩ := step_all s a ev hI hR
     exact ih (s.step ev) (a.step ev) h1 h2
 
+/-! ### the guard-selected machine is the mirrored one while the guards hold -/
+
+theorem mergeEntriesG_eq : @mergeEntriesG = @mergeEntries := by
+  funext q srcs t i
+  exact if_pos (by decide)
+
+theorem mergeTargetG_eq : @mergeTargetG = @mergeTarget := by
+  funext b c st
+  exact if_pos (by decide)
+
+theorem containsAllG_eq : @containsAllG = @containsAll := by
+  funext reg ids
+  exact if_pos (by decide)
+
+theorem reconcileG_eq : @reconcileG = @reconcile := by
+  funext st m
+  exact if_pos (by decide)
+
+theorem endMergeG_eq (st : State) (r : Running) : endMergeG st r = endMerge st r := by
+  simp only [endMergeG, endMerge, endMergeWith, containsAllG_eq, reconcileG_eq, if_true]
+
+theorem stepG_eq (s : Sys) (ev : Ev) : s.stepG ev = s.step ev := by
+  cases ev <;> simp only [Sys.stepG, Sys.step, mergeEntriesG_eq, mergeTargetG_eq, endMergeG_eq]
+
+theorem runG_eq (evs : List Ev) (s : Sys) : s.runG evs = s.run evs := by
+  induction evs generalizing s with
+  | nil => rfl
+  | cons ev rest ih =>
+    simp only [Sys.runG, Sys.run, List.foldl_cons] at ih ⊢
+    rw [stepG_eq]
+    exact ih (s.step ev)
+
 end TantivyModel.Merge
